@@ -9,7 +9,7 @@
    issued only for proofs that are alive; `ps` is the multiset of amounts of the live proofs. *)
 From Coq Require Import List ZArith NArith Bool.
 Import ListNotations.
-Require Import RV.Model.C10_ProofLock RV.Proof.C10_ProofLock.
+Require Import RV.Model.C10_ProofLock RV.Proof.C10_ProofLock RV.Proof.C10_NonFungible.
 Open Scope Z_scope.
 
 (* liquid + locked (= max of the locked amounts) only changes by what is taken out or put in:
@@ -56,6 +56,29 @@ Theorem C10_divisibility : forall div a c r,
   (f_take div a c = Ok r \/ exists c', f_create_proof div a c = Ok c') -> 0 <= a /\ a mod unit_of div = 0.
 Proof. exact accepted_amounts_divisible. Qed.
 
+(* ---- non-fungible containers ----
+   NWf c: the liquid ids are distinct and none of them is in the lock table (holds initially and is
+   kept by lock and take).  Proved: locking (create proof / clone) succeeds only for ids the
+   container holds, keeps the set of ids held, and puts every proven id in the lock table and out
+   of the liquid set; a take / recall / burn of ids succeeds iff the ids are distinct and all
+   liquid; hence no id under a live lock can be withdrawn.  NOT proved for ids (covered by
+   correspondence only): the count bookkeeping of unlock_non_fungibles (all proofs dropped =>
+   lock table empty and every id liquid again; unlock through a live proof never panics). *)
+Theorem C10_nf_lock_keeps_ids : forall ids c c', NWf c -> n_lock ids c = Ok c' ->
+  NWf c' /\ (forall y, holds c' y <-> holds c y) /\ (forall y, In y ids -> holds c y) /\
+  (forall y, In y ids -> In y (nkeys (nlocked c')) /\ ~ In y (nliq c')) /\
+  (forall y, In y (nkeys (nlocked c)) -> In y (nkeys (nlocked c'))).
+Proof. exact n_lock_spec. Qed.
+Theorem C10_nf_withdraw_iff : forall ids c, NWf c ->
+  ((exists c', n_take_ids ids c = Ok (c', ids)) <-> NoDup ids /\ forall y, In y ids -> In y (nliq c)).
+Proof. exact n_take_iff. Qed.
+Theorem C10_nf_locked_not_withdrawable : forall c ids' y r, NWf c ->
+  In y (nkeys (nlocked c)) -> In y ids' -> n_take_ids ids' c <> Ok r.
+Proof. exact lock_table_ids_not_withdrawable. Qed.
+Theorem C10_nf_take_keeps_wf : forall ids c c' out, NWf c -> n_take_ids ids c = Ok (c', out) ->
+  NWf c' /\ out = ids /\ nlocked c' = nlocked c /\ (forall y, In y (nliq c') <-> In y (nliq c) /\ ~ In y ids).
+Proof. exact n_take_wf. Qed.
+
 (* non-vacuity: a history with two overlapping proofs (7 and 5 units), a withdrawal at the
    boundary, a clone, and all drops *)
 Example C10_nonvacuous :
@@ -71,3 +94,7 @@ Print Assumptions C10_all_dropped_restores.
 Print Assumptions C10_no_panic.
 Print Assumptions C10_no_panic_other.
 Print Assumptions C10_divisibility.
+Print Assumptions C10_nf_lock_keeps_ids.
+Print Assumptions C10_nf_withdraw_iff.
+Print Assumptions C10_nf_locked_not_withdrawable.
+Print Assumptions C10_nf_take_keeps_wf.
